@@ -7,7 +7,7 @@ PROP = "C04"
 PROTOS = ["netrpc", "grpc", "grpcmux"]
 LAUNCHES = ["cmd", "runner", "reattach", "foreign"]   # foreign: reattached to a process that is not a child of the host
 BEHAVIOURS = ["prompt", "busy", "delay", "ignore", "frozen", "crashed", "failedhandshake"]
-MODEL_CFGS = ["kill_prompt.cfg", "kill_delay.cfg", "kill_ignore.cfg", "kill_crashed.cfg", "kill_frozen_ok.cfg", "kill_frozen_err.cfg"]
+MODEL_CFGS = ["kill_prompt.cfg", "kill_delay.cfg", "kill_ignore.cfg", "kill_crashed.cfg", "kill_frozen_ok.cfg", "kill_frozen_err.cfg", "kill_unconnected.cfg"]
 
 
 def valid(proto, launch, beh, tier):
@@ -56,6 +56,120 @@ def make_cases(tier, rng):
     return cases
 
 
+MODEL_BEHAVIOUR = {"prompt": "prompt", "busy": "prompt", "delay": "delay", "ignore": "ignore", "crashed": "crashed", "failedhandshake": "unconnected"}
+
+
+def kill_trace_rows(o):
+    """The recorded events of one Kill case as rows for TraceKillImpl (hook events are attributed to the
+    call of the goroutine they ran in)."""
+    rows = [{"ev": "reset", "t": 0}]
+    who = {}
+    for e in o["out"].get("events") or []:
+        if e["ev"] == "call.kill":
+            who[e["g"]] = e["c"]
+        c = e.get("c") or who.get(e["g"])
+        if c is None:
+            return None
+        r = {"ev": e["ev"], "c": c, "a": e["a"], "b": e["b"], "t": e["t"]}
+        if e["ev"] == "ret.kill":
+            r.update({"gone": bool(e.get("gone")), "exited": bool(e.get("exited"))})
+        rows.append(r)
+    rows.append({"ev": "end", "marker": bool(o["out"].get("marker")), "t": rows[-1]["t"]})
+    return rows
+
+
+def validate_kill_traces(obs, by, tag):
+    """Hook-level conformance: the events of every Kill call are a behaviour of Kill.tla. Returns (accepted, {name: (event, detail)}, events)."""
+    groups, nev = {}, 0
+    for name, o in obs.items():
+        c = by.get(name)
+        if c is None or o.get("hang") or c["pattern"] == "cleanup" or c["behaviour"] not in MODEL_BEHAVIOUR or not o["out"].get("start_ok"):
+            continue
+        rows = kill_trace_rows(o)
+        if not rows or len(rows) < 4 or sum(1 for r in rows if r["ev"] == "call.kill") > 5:
+            continue
+        groups.setdefault((MODEL_BEHAVIOUR[c["behaviour"]], c.get("delay_ms", 0)), []).append((name, rows))
+        nev += len(rows)
+    ok_total, bad = 0, {}
+    for (beh, delay), packed in sorted(groups.items()):
+        ok, rejected, _ = vlib.validate_packed("TraceKillImpl", "trace_killimpl.cfg", packed, "%s.ktr.%s%d" % (tag, beh, delay),
+                                               header={"ev": "header", "behaviour": beh, "delay": delay, "t": 0})
+        ok_total += ok
+        for n, ev, detail in rejected:
+            bad.setdefault(n, (ev, detail))
+    return ok_total, bad, nev
+
+
+def kill_trace_selftest(obs_list, by, tag):
+    """Binding self-test: corrupted versions of accepted Kill traces must be rejected by TraceKillImpl."""
+    total = 0
+    for want_beh, want_pat in (("prompt", "single"), ("delay", "concurrent")):
+        for o in obs_list:
+            c = by[o["name"]]
+            if c["behaviour"] != want_beh or c["pattern"] != want_pat or c["launch"] in ("reattach", "foreign") or o.get("hang"):
+                continue
+            rows = kill_trace_rows(o)
+            if not rows or not any(r["ev"] == "client.kill.graceful" for r in rows):
+                continue
+            hdr = {"ev": "header", "behaviour": MODEL_BEHAVIOUR[c["behaviour"]], "delay": c.get("delay_ms", 0), "t": 0}
+            path = os.path.join(vlib.sub("%s.kst.%s" % (tag, want_beh)), "good.ndjson")
+            vlib.write_ndjson(path, [hdr] + rows)
+            if not vlib.validate_trace("TraceKillImpl", "trace_killimpl.cfg", path)["accepted"]:
+                continue
+
+            def first(rs, ev, **kw):
+                return next(i for i, r in enumerate(rs) if r["ev"] == ev and all(r.get(k) == v for k, v in kw.items()))
+
+            def no_graceful(rs):
+                del rs[first(rs, "client.kill.graceful")]
+                return rs
+
+            def close_failed(rs):
+                rs[first(rs, "client.kill.closed")]["a"] = 0
+                return rs
+
+            def not_gone(rs):
+                rs[first(rs, "ret.kill")]["gone"] = False
+                return rs
+
+            def forced_instead(rs):
+                rs[first(rs, "client.kill.graceful")]["ev"] = "client.kill.force"
+                return rs
+
+            def no_marker(rs):
+                rs[-1]["marker"] = not rs[-1]["marker"]
+                return rs
+
+            def early_grace_expiry(rs):
+                i = first(rs, "client.kill.graceful")
+                rs[i]["ev"] = "client.kill.graceexpired"
+                return rs
+
+            def second_caller_inside(rs):
+                # a second caller reads the client's fields while the first call is still between its read and its end
+                try:
+                    i = first(rs, "client.kill.read", c="k1")
+                    j = first(rs, "client.kill.read", c="k2")
+                except StopIteration:
+                    return None
+                lo, hi = (i, j) if i < j else (j, i)
+                e = rs.pop(hi)
+                e["t"] = rs[lo]["t"]
+                rs.insert(lo + 1, e)
+                return rs
+            total += vlib.selftest_trace("TraceKillImpl", "trace_killimpl.cfg", path,
+                                         [("graceful exit not logged", no_graceful), ("close reported failed", close_failed), ("process not gone at return", not_gone),
+                                          ("force kill instead of graceful exit", forced_instead), ("cleanup marker flipped", no_marker),
+                                          ("grace period expired early", early_grace_expiry), ("second caller inside the first call", second_caller_inside)],
+                                         "%s.kst.%s" % (tag, want_beh))
+            break
+    return total
+
+
+def strip_events(o):
+    return dict(o, out={k: v for k, v in o["out"].items() if k != "events"}) if isinstance(o.get("out"), dict) else o
+
+
 def run(tier, seed):
     rng = random.Random(seed * 16807 + 4)
     rep = vlib.Report(PROP, tier, seed, "model_checking")
@@ -75,7 +189,11 @@ def run(tier, seed):
     obs_list = [obs[c["name"]] for c in cases if c["name"] in obs]
     if len(obs_list) + len(crashes) + sum(1 for c in cases if c["name"] not in obs and c["name"] not in crashes) != len(cases):
         raise vlib.Inconclusive("bookkeeping")
-    r2, dev = vlib.judge_observations("TraceKill", "trace_kill.cfg", obs_list, "c04")
+    r2, dev = vlib.judge_observations("TraceKill", "trace_kill.cfg", [strip_events(o) for o in obs_list], "c04")
+    dev = list(dev)
+    tr_ok, tr_bad, tr_events = validate_kill_traces(obs, by, "c04")
+    rep.coverage.update({"kill_traces_validated": tr_ok, "kill_trace_events": tr_events})
+    dev += [n for n in tr_bad if n not in dev]
     confirmed = []
     for name in dev:
         confirmed.append(by[name])
@@ -84,19 +202,27 @@ def run(tier, seed):
         obs2, crashes2 = vlib.run_cases(b["drivers"], "TestKillCases", confirmed, "c04c", env={"VERIF_VPLUGIN": b["vplugin"], "VERIF_WORKERS": "1"}, shards=1, timeout=2400)
         ol2 = [obs2[c["name"]] for c in confirmed if c["name"] in obs2 and not obs2[c["name"]].get("hang")]
         dev2 = set()
+        tr_bad2 = {}
         if ol2:
-            _, d2 = vlib.judge_observations("TraceKill", "trace_kill.cfg", ol2, "c04c")
+            _, d2 = vlib.judge_observations("TraceKill", "trace_kill.cfg", [strip_events(o) for o in ol2], "c04c")
             dev2 = set(d2)
+            _, tr_bad2, _ = validate_kill_traces({o["name"]: o for o in ol2}, by, "c04c")
+            dev2 |= set(tr_bad2)
         for c in confirmed:
             name = c["name"]
             if name in dev2 or name in crashes2 or obs2.get(name, {}).get("hang"):
                 o = obs2.get(name, obs[name])
+                trd = ""
+                if name in tr_bad2 or (name in tr_bad and name not in obs2):
+                    ev, detail = (tr_bad2.get(name) or tr_bad[name])
+                    trd = "; recorded event %s -- %s (TraceKillImpl)" % (json.dumps(ev), detail)
                 rep.violation("c04:%s:%s:%s:%s" % (c["behaviour"], c["proto"], c["launch"], c["pattern"]),
-                              "%s plugin (%s, launched by %s), Kill pattern %s x%d: observed %s -- not what Kill.tla allows (confirmed by a second run)" % (
-                                  c["behaviour"], c["proto"], c["launch"], c["pattern"], c["n"], json.dumps(o.get("out"))),
+                              "%s plugin (%s, launched by %s), Kill pattern %s x%d: observed %s%s -- not what Kill.tla allows (confirmed by a second run)" % (
+                                  c["behaviour"], c["proto"], c["launch"], c["pattern"], c["n"], json.dumps(strip_events(o).get("out")), trd),
                               {"case": c, "observation": o, "first_observation": obs[name]})
             else:
                 rep.coverage.setdefault("unconfirmed", []).append(name)
+    rep.coverage["binding_selftest_mutations_rejected"] = kill_trace_selftest([o for o in obs_list if o["name"] not in dev], by, "c04")
     rep.coverage.update({
         "states": sum(r["distinct"] for r in runs), "transitions": sum(r["generated"] for r in runs), "traces_validated_against_impl": len(obs_list),
         "evaluations": len(cases), "distinct_nontrivial": len(set((c["proto"], c["launch"], c["behaviour"], c["pattern"], c["n"]) for c in cases)),
@@ -120,7 +246,8 @@ def replay(path):
     if len(ol) < 1:
         rep.violation("c04:replay", "hang or crash", {"case": c})
     else:
-        r2, dev = vlib.judge_observations("TraceKill", "trace_kill.cfg", ol, "c04r")
+        r2, dev = vlib.judge_observations("TraceKill", "trace_kill.cfg", [strip_events(o) for o in ol], "c04r")
+        dev = list(dev) + [n for n in validate_kill_traces({o["name"]: o for o in ol}, {c["name"]: c}, "c04r")[1] if n not in dev]
         for name in dev:
             rep.violation("c04:replay", "observed %s" % json.dumps(obs[name]["out"]), {"case": c, "observation": obs[name]})
     rep.coverage.update({"states": 1, "transitions": 1, "traces_validated_against_impl": len(ol), "samples": [c]})
